@@ -126,6 +126,12 @@ fn judge_isolated(rep: &mut Report, st: &mut Stream, cases: &[Vec<u8>], tags: &[
     let rs = run_isolated(cases, loop_limit, per_case);
     for ((c, r), tag) in cases.iter().zip(rs.iter()).zip(tags.iter()) {
         st.case(&hex(&c[..c.len().min(64)]), true, || json!({"input": shown(c)}));
+        if let Ok(line) = r {
+            // time taken, as reported by the child (evidence of the margin below the limit)
+            if let Some(ms) = line.split_whitespace().last().and_then(|m| m.parse::<u64>().ok()) {
+                st.tally(match ms { 0..=99 => "time<0.1s", 100..=999 => "time<1s", 1000..=9999 => "time<10s", _ => "time>=10s" });
+            }
+        }
         match r {
             Ok(line) if line.starts_with("ok") => { st.exact += 1; st.tally("result=ok"); }
             Ok(line) if line.starts_with("err:") => { st.exact += 1; st.errors_agreed += 1; st.tally(&format!("result={}", line.split_whitespace().next().unwrap_or(""))); }
